@@ -316,6 +316,14 @@ def _pipeline_check(case, df):
             empty = {i for i, v in enumerate(df[col].tolist()) if pd.isna(v)}
             if empty != set(range(n)) - rows:
                 return f"X:evaluated-rows:{col}:{sorted(empty)}"
+    # a data column holds the values of ITS OWN stream (or nothing) on every row
+    for sid, vals in case["streams"].items():
+        if sid in df and sid not in names:
+            for i, v in enumerate(df[sid].tolist()):
+                if pd.isna(v):
+                    continue
+                if vals[i] is None or float(F(vals[i])) != float(v):
+                    return f"X:data-column:{sid}:row{i}:{v}"
     return None
 
 
